@@ -26,9 +26,35 @@
   absence of leaks (`leak=`) and of invalid accesses (ASan/UBSan).
 -/
 import JsonC.Lemmas.PatchLoop
+import JsonC.Generated.Structure
 
 namespace JsonC.Patch
 open JsonC
+
+/-- ASCII text of a byte string -/
+def asString (b : Bytes) : String := String.ofList (b.map fun c => Char.ofNat c.toNat)
+
+/-- The literals and structural facts of json_patch.c / json_pointer.c the model is written
+against, as regenerated from the current source on every run (tools/extract/st_patch.py): the
+dispatch chain and its order, the member names, two deep copies (add/replace value, copy source),
+the `idx > length` guards of both array callbacks, the prefix rule (by reference token, only for
+move), the NULL checks on op/from/path, strtoull in is_valid_index, the 32-bit index_in_parent
+behind the `SmallRun` hypothesis, the `!obj` test behind patch.null-root, key_in_parent being the
+stored key. -/
+theorem source_facts :
+    Generated.patchDispatch = [sTest, sRemove, sAdd, sReplace, sMove, sCopy].map asString ∧
+    Generated.patchFields = [kValue, kFrom, kOp, kPath].map asString ∧
+    Generated.patchCopyValueCalls = 2 ∧
+    Generated.patchArrayGuards = true ∧
+    Generated.patchPrefixRuleMoveOnly = true ∧
+    Generated.patchPrefixByToken = true ∧
+    Generated.patchNullFieldChecks = true ∧
+    Generated.ptrIndexStrtoull = true ∧
+    2 ^ Generated.ptrIndexInParentBits = UINT32_MOD ∧
+    Generated.ptrGetRejectsNullObj = true ∧
+    Generated.ptrKeyInParentStored = true ∧
+    ULLONG_MAX = 2 ^ (8 * Generated.sizeofSizeT) - 1 := by
+  decide
 
 /-- Safety: for every document, every value as patch document (well-formed or not), both calling
 conventions and every behaviour of the two parameter functions, json_patch_apply returns: no
